@@ -135,20 +135,21 @@ def scan_refs(pkgdir):
     """every <lib>.<name> referenced anywhere in the package: name -> dict(decl=[file:line], call=[file:line], other=[..])"""
     refs = {}
     files = sorted(f for f in os.listdir(pkgdir) if f.endswith(".py"))
-    for f in files:
-        if f == "loadlibrary.py":
-            continue
-        src = open(os.path.join(pkgdir, f)).read()
-        tree = ast.parse(src, f)
-        libs = loader_names(tree) or set()
-        if not libs:
-            continue
+    trees = {f: ast.parse(open(os.path.join(pkgdir, f)).read(), f) for f in files if f != "loadlibrary.py"}
+    anylib = set()
+    for t in trees.values():
+        anylib |= loader_names(t)
+    for f, tree in trees.items():
+        libs = loader_names(tree)
         parents = {}
         for p in ast.walk(tree):
             for c in ast.iter_child_nodes(p):
                 parents[c] = p
         for n in ast.walk(tree):
-            if isinstance(n, ast.Attribute) and isinstance(n.value, ast.Name) and n.value.id in libs:
+            direct = isinstance(n, ast.Attribute) and isinstance(n.value, ast.Name) and n.value.id in libs
+            # the library object of another module of the package: <module alias>.lsci.<name>
+            via = isinstance(n, ast.Attribute) and isinstance(n.value, ast.Attribute) and n.value.attr in anylib
+            if direct or via:
                 r = refs.setdefault(n.attr, dict(decl=[], call=[], other=[]))
                 par = parents.get(n)
                 where = "%s:%d" % (f, n.lineno)
